@@ -955,6 +955,12 @@ class SDefaultDict(dict):
 def x_defaultdict(I, args, kwargs):
     d = SDefaultDict()
     d.factory = args[0] if args else None
+    if len(args) > 1:                  # defaultdict(factory, mapping): the entries of the mapping (same value objects), like dict(mapping)
+        init = I.force(args[1])
+        if not isinstance(init, dict):
+            raise OutsideSubset("defaultdict initialised from something else than a concrete dict")
+        d.update(init)
+    d.update(kwargs)
     return d
 
 
